@@ -621,7 +621,7 @@ STANDINS = {
         "dimensions x {Quantity, UncertainQuantity}: never accepted",
         "343 grid points x 2 classes x <= 11 constants"),
     "registry_independence": (
-        gen_indep, None, check_indep, 48, 5000,
+        gen_indep, None, check_indep, 64, 5000,
         "seeded: 2-4 substances, 1-4 reactions of order 0..3 (later reactions reuse species, species on both sides) generated as SI "
         "numbers; constants as quantities / named parameters (include_params=False) / Arrhenius and Radiolytic expressions with values or "
         "with named (unique_keys) arguments; two "
@@ -631,7 +631,7 @@ STANDINS = {
         "output expressed in output_conc_unit/output_time_unit or the registry unit)",
         "orders 0..3, <= 5 reactions, <= 4 substances, 3 registries x 2 presentations per system"),
     "alt_builder": (
-        gen_alt, None, check_alt, 32, 3000,
+        gen_alt, None, check_alt, 40, 3000,
         "seeded: the same generator restricted to named mass-action constants, driven through the alternative builder "
         "create_odesys(rsys, unit_registry=reg): validate() returns rates whose SI value equals the hand computation (1e-9 of sum |terms|) "
         "and leaves the quantities it was given untouched, refuses a constant times one second, unit_aware_solve() starts at c0, ends at "
